@@ -17,8 +17,10 @@ fn process_plane(input: &mut dyn Read, width: u32, height: u32, output: &mut [u8
 	let mut x;
 	let mut revcode;
 
-    let mut this_line: u32;
-    let mut last_line: u32 = 0;
+    let width = width as usize;
+    let height = height as usize;
+    let mut this_line: usize;
+    let mut last_line: usize = 0;
 
 	while indexh < height {
 		let mut out = (width * height * 4) - ((indexh + 1) * width * 4);
@@ -35,15 +37,19 @@ fn process_plane(input: &mut dyn Read, width: u32, height: u32, output: &mut [u8
 					replen = revcode;
 					collen = 0;
 				}
+				// a run must stay inside its scanline
+				if indexw + collen as usize + replen as usize > width {
+					return Err(Error::RdpError(RdpError::new(RdpErrorKind::InvalidData, "RLE32 run crosses the end of the scanline")))
+				}
 				while collen > 0 {
 					color = input.read_u8()? as i8;
-					output[out as usize] = color as u8;
+					output[out] = color as u8;
 					out += 4;
 					indexw += 1;
 					collen -= 1;
 				}
 				while replen > 0 {
-					output[out as usize] = color as u8;
+					output[out] = color as u8;
 					out += 4;
 					indexw += 1;
 					replen -= 1;
@@ -61,6 +67,10 @@ fn process_plane(input: &mut dyn Read, width: u32, height: u32, output: &mut [u8
 					replen = revcode;
 					collen = 0;
 				}
+				// a run must stay inside its scanline
+				if indexw + collen as usize + replen as usize > width {
+					return Err(Error::RdpError(RdpError::new(RdpErrorKind::InvalidData, "RLE32 run crosses the end of the scanline")))
+				}
 				while collen > 0 {
 					x = input.read_u8()?;
 					if x & 1 != 0{
@@ -73,15 +83,15 @@ fn process_plane(input: &mut dyn Read, width: u32, height: u32, output: &mut [u8
 						x = x >> 1;
 						color = x as i8;
 					}
-					x = (output[(last_line + (indexw * 4)) as usize] as i32 + color as i32) as u8;
-					output[out as usize] = x;
+					x = (output[last_line + (indexw * 4)] as i32 + color as i32) as u8;
+					output[out] = x;
 					out += 4;
 					indexw += 1;
 					collen -= 1;
 				}
 				while replen > 0 {
-					x = (output[(last_line + (indexw * 4)) as usize] as i32 + color as i32) as u8;
-					output[out as usize] = x;
+					x = (output[last_line + (indexw * 4)] as i32 + color as i32) as u8;
+					output[out] = x;
 					out += 4;
 					indexw += 1;
 					replen -= 1;
@@ -97,6 +107,11 @@ fn process_plane(input: &mut dyn Read, width: u32, height: u32, output: &mut [u8
 /// Run length encoding decoding function for 32 bpp
 pub fn rle_32_decompress(input: &[u8], width: u32, height: u32, output: &mut [u8]) -> RdpResult<()> {
     let mut input_cursor = Cursor::new(input);
+
+	// nothing to decode for an empty bitmap (and no plane to slice)
+	if width == 0 || height == 0 {
+		return Ok(())
+	}
 
 	if input_cursor.read_u8()? != 0x10 {
 		return Err(Error::RdpError(RdpError::new(RdpErrorKind::UnexpectedType, "Bad header")))
